@@ -374,7 +374,7 @@ def convert_join_to_list(join):
 
 
 def get_query_params(query):
-    # find all parameters
+    # find all parameters, in the order they are written in the statement
     params = []
 
     def params_find(node, **kwargs):
@@ -383,15 +383,42 @@ def get_query_params(query):
             return node
 
     query_traversal(query, params_find)
-    return params
+    return sort_by_text_position(query, params)
+
+
+def sort_by_text_position(query, params):
+    # query_traversal does not visit nodes in the order they are written (FROM before the select list,
+    # the right side of a join before the left one, WHERE of an update before SET, ...), but positional
+    # placeholders are bound by position: order them as they appear in the rendered statement
+    if len(params) < 2:
+        return params
+    saved = [param.value for param in params]
+    try:
+        for i, param in enumerate(params):
+            param.value = f'__param_{i}__'
+        text = query.to_string()
+    finally:
+        for param, value in zip(params, saved):
+            param.value = value
+    positions = [text.find(f':__param_{i}__') for i in range(len(params))]
+    if min(positions) < 0:
+        # a placeholder is not rendered: keep the traversal order
+        return params
+    return [param for _, param in sorted(zip(positions, params), key=lambda item: item[0])]
+
 
 def fill_query_params(query, params):
 
     params = copy.deepcopy(params)
 
+    # the value of every placeholder, by its position in the statement
+    values = {}
+    for node in get_query_params(query):
+        values[id(node)] = params.pop(0)
+
     def params_replace(node, **kwargs):
         if isinstance(node, ast.Parameter):
-            value = params.pop(0)
+            value = values[id(node)]
             # keep what was written around the placeholder: `? AS x`, `(?)`
             if value is None:
                 # None is the SQL NULL, not the word `None`
